@@ -677,8 +677,10 @@ class Formatter:
             if callable(values):
                 candidates = values(locale)
             else:
+                # Names are literal text ("janv." ends with a dot)
                 candidates = tuple(
-                    locale.translation(
+                    re.escape(name)
+                    for name in locale.translation(
                         cast(str, self._LOCALIZABLE_TOKENS[token])
                     ).values()
                 )
